@@ -335,6 +335,168 @@ Example C04_choice_prune_run_fixed :
   exists text, run_shexc_map BAlg (with_or false true base_rcfg) m_orc m_spec thr0 m_graph = inl text.
 Proof. intros E. exact (proj2 (m_choice_fixed E)). Qed.
 
+(** * SHACL output of shape-map runs ([Model.RunMapShacl.run_shacl_map] =
+    [run_shapes_map] followed by [ShaclDoc.shacl_output]: [_add_shapes], then rdflib's writer in
+    [_produce_output], which raises [Exception] on an IRI holding one of the characters of
+    [ShaclDoc.rdflib_invalid_uri_chars], the corners among them).
+
+    Finding C04-F2: the class key of the shape of a label is the label as the shape map has it,
+    [<iri>]; [_add_target_class] handed it to [URIRef] with its corners, so that EVERY SHACL output
+    of a shape-map extraction raised ([C04_map_shacl_fails_old], for the text of the method that keeps
+    the key: [c_shacl_target_strips_corners = false]).  The repaired text removes the corners
+    ([SerialShacl.target_class_obj]): no failure is left that comes from the target class
+    ([C04_map_shacl_total]: the output exists wherever the serialiser builds its graph -- C11's domain,
+    as for class-based runs -- and the shape IRIs and statement IRIs are printable).  S1-S3 of C05 for
+    these graphs: Props/C05.v ([C05_map_shacl_graph], [C05_map_pure_shacl_run]). *)
+From Shexer Require Import Spec.ConstraintSpec Spec.ShaclGraphSpec Model.SerialShacl Model.ShaclDoc Model.RunMapShacl.
+From Shexer Require Proofs.ShaclMapProofs.
+
+Theorem C04_map_shacl_ok_iff : forall fa c orc sp thr g tr,
+  run_shacl_map fa c orc sp thr g = inl tr <->
+  exists ns shapes, run_shapes_map fa c orc sp thr g = inl (ns, shapes) /\
+                    shacl_output ns (tau_shaper sp) shapes = inl tr.
+Proof. exact ShaclMapProofs.map_shacl_ok_iff. Qed.
+Print Assumptions C04_map_shacl_ok_iff.
+
+(** the serialiser returns exactly when it builds the graph and rdflib accepts every IRI of it *)
+Theorem C04_shacl_output_ok_iff : forall z ns tau shapes tr,
+  shacl_output_gen z ns tau shapes = inl tr <->
+  shacl_graph_gen z ns tau shapes = inl tr /\ forallb triple_printable tr = true.
+Proof. exact ShaclMapProofs.shacl_output_gen_ok. Qed.
+Print Assumptions C04_shacl_output_ok_iff.
+
+(** on C11's domain with printable shape IRIs, statement IRIs ([ShaclMapProofs.shape_printable]) and
+    target IRIs, whatever the class keys are *)
+Theorem C04_shacl_output_total : forall ns tau shapes,
+  forallb (C11_dom_shape ns tau) shapes = true ->
+  forallb ShaclMapProofs.shape_printable shapes = true ->
+  forallb ShaclMapProofs.target_printable shapes = true ->
+  exists g, shacl_output ns tau shapes = inl g /\ shacl_graph ns tau shapes = inl g.
+Proof. exact ShaclMapProofs.shacl_output_total. Qed.
+Print Assumptions C04_shacl_output_total.
+
+(** the class keys of a pure shape-map run (no target classes, all_classes_mode off) are labels of the map *)
+Theorem C04_map_pure_classes_labels : forall fa c orc sp thr g ns shapes,
+  ShaclMapProofs.pure_map sp -> run_shapes_map fa c orc sp thr g = inl (ns, shapes) ->
+  forall sh, In sh shapes -> In (sh_class sh) (map_labels orc sp).
+Proof. exact ShaclMapProofs.map_pure_classes_labels. Qed.
+Print Assumptions C04_map_pure_classes_labels.
+
+(** (a) labels [<iri>] with an IRI rdflib accepts ([labels_cornered]), repaired [_add_target_class] *)
+Theorem C04_map_shacl_total : forall fa c orc sp thr g ns shapes,
+  c_shacl_target_strips_corners = true ->
+  ShaclMapProofs.pure_map sp -> ShaclMapProofs.labels_cornered orc sp ->
+  run_shapes_map fa c orc sp thr g = inl (ns, shapes) ->
+  forallb (C11_dom_shape ns (tau_shaper sp)) shapes = true ->
+  forallb ShaclMapProofs.shape_printable shapes = true ->
+  exists tr, run_shacl_map fa c orc sp thr g = inl tr /\ shacl_graph ns (tau_shaper sp) shapes = inl tr.
+Proof. exact ShaclMapProofs.map_shacl_total. Qed.
+Print Assumptions C04_map_shacl_total.
+
+(** the old behaviour (C04-F2), stated for the text that keeps the key: one class key in corners and the
+    serialiser never returns; every pure shape-map run that yields a shape fails in rdflib's writer *)
+Theorem C04_shacl_cornered_key_fails : forall z ns tau shapes sh,
+  c_shacl_target_strips_corners = false -> In sh shapes -> cornered (sh_class sh) = true ->
+  forall g, shacl_output_gen z ns tau shapes <> inl g.
+Proof. exact ShaclMapProofs.shacl_output_cornered_never. Qed.
+Print Assumptions C04_shacl_cornered_key_fails.
+
+Theorem C04_map_shacl_fails_old : forall fa c orc sp thr g ns shapes,
+  c_shacl_target_strips_corners = false ->
+  ShaclMapProofs.pure_map sp -> ShaclMapProofs.labels_cornered orc sp ->
+  run_shapes_map fa c orc sp thr g = inl (ns, shapes) -> shapes <> [] ->
+  forallb (C11_dom_shape ns (tau_shaper sp)) shapes = true ->
+  run_shacl_map fa c orc sp thr g = inr (MSShacl OException).
+Proof. exact ShaclMapProofs.map_shacl_fails_old. Qed.
+Print Assumptions C04_map_shacl_fails_old.
+
+(** the pinned shape-map run (labels <http://sh/S>, <http://sh/T>; default options) under both texts *)
+Definition c04_sh_S : term := TIri (Str "http://sh/S").
+
+Lemma C04_map_shacl_refuted :
+  c_shacl_target_strips_corners = false ->
+  exists c orc sp g thr ns shapes tr,
+    ShaclMapProofs.pure_map sp /\ ShaclMapProofs.labels_cornered orc sp /\
+    run_shapes_map BAlg c orc sp thr g = inl (ns, shapes) /\
+    (* the graph is built, the object of sh:targetClass keeps its corners ... *)
+    shacl_graph ns (tau_shaper sp) shapes = inl tr /\
+    objects tr c04_sh_S (SH "targetClass") = [TIri (Str "<http://sh/S>")] /\
+    (* ... and rdflib's writer raises *)
+    run_shacl_map BAlg c orc sp thr g = inr (MSShacl OException).
+Proof.
+  flag_or ltac:(
+    exists base_rcfg, m_orc, m_spec, m_graph, thr0; do 3 eexists;
+    split; [split; reflexivity|];
+    split; [intros l Hl; vm_compute in Hl; repeat destruct Hl as [<-|Hl]; try destruct Hl;
+           first [exists (Str "http://sh/S"); split; reflexivity | exists (Str "http://sh/T"); split; reflexivity]|];
+    split; [vm_compute; reflexivity|]; split; [vm_compute; reflexivity|];
+    split; vm_compute; reflexivity).
+Qed.
+Print Assumptions C04_map_shacl_refuted.
+
+Example C04_map_shacl_fixed :
+  c_shacl_target_strips_corners = true ->
+  exists tr, run_shacl_map BAlg base_rcfg m_orc m_spec thr0 m_graph = inl tr /\
+             objects tr c04_sh_S (SH "targetClass") = [c04_sh_S] /\
+             objects tr c04_sh_S (RDFNS "type") = [TIri (SH "NodeShape")] /\
+             List.length tr = 12.
+Proof.
+  flag_or ltac:(eexists; split; [vm_compute; reflexivity|]; repeat split; vm_compute; reflexivity).
+Qed.
+
+(** the hypotheses of [C04_map_shacl_total] hold on that run *)
+Example C04_map_shacl_total_nonvacuous :
+  ShaclMapProofs.pure_map m_spec /\ ShaclMapProofs.labels_cornered m_orc m_spec /\
+  exists ns shapes, run_shapes_map BAlg base_rcfg m_orc m_spec thr0 m_graph = inl (ns, shapes) /\
+                    forallb (C11_dom_shape ns (tau_shaper m_spec)) shapes = true /\
+                    forallb ShaclMapProofs.shape_printable shapes = true /\ shapes <> [].
+Proof.
+  split; [split; reflexivity|].
+  split; [intros l Hl; vm_compute in Hl; repeat destruct Hl as [<-|Hl]; try destruct Hl;
+           first [exists (Str "http://sh/S"); split; reflexivity | exists (Str "http://sh/T"); split; reflexivity]|].
+  do 2 eexists. split; [vm_compute; reflexivity|]. split; [vm_compute; reflexivity|].
+  split; [vm_compute; reflexivity | discriminate].
+Qed.
+
+(** * SHACL output with disjunctions enabled (finding C04-F3).  [disable_or_statements=False] is an
+    accepted configuration; a shape list that holds a disjunction is never serialised as SHACL:
+    [_add_node_type] (or [_add_in_instance]) reads [statement.st_type], which raises TypeError for a
+    FixedPropChoiceStatement.  The ShExC output of the same run exists. *)
+Theorem C04_shacl_choice_never : forall z ns tau shapes sh st,
+  In sh shapes -> In st (sh_stmts sh) -> s_choice st = true ->
+  forall g, shacl_graph_gen z ns tau shapes <> inl g.
+Proof. exact ShaclMapProofs.shacl_graph_choice_fails. Qed.
+Print Assumptions C04_shacl_choice_never.
+
+Theorem C04_shacl_choice_type_error : forall z ns tau sh st rest_st rest,
+  generate_shape_uri (sh_name sh) <> None ->
+  (d_detect z = true -> exists o, d_pat z (sh_class sh) = Some o) ->
+  sh_stmts sh = st :: rest_st -> s_choice st = true -> str_eqb (s_prop st) tau = false ->
+  shacl_graph_gen z ns tau (sh :: rest) = inr GTypeError.
+Proof. exact ShaclMapProofs.shacl_graph_choice_type_error. Qed.
+Print Assumptions C04_shacl_choice_type_error.
+
+(** two instances of C; ex:p leads one to an instance of D, the other to an untyped IRI: with
+    allow_redundant_or the statement is [ex:p IRI OR @:D] *)
+Definition g_choice : graph :=
+  [ty "a1" "C"; ty "a2" "C"; ty "b" "D"; lnk "a1" "p" (iri "b"); lnk "a2" "p" (iri "x")].
+
+Lemma C04_shacl_choice_refuted :
+  exists c g ns shapes,
+    r_disable_or c = false /\ r_allow_redundant_or c = true /\
+    run_shapes BAlg c thr0 g = inl (ns, shapes) /\
+    (exists sh st, In sh shapes /\ In st (sh_stmts sh) /\ s_choice st = true) /\
+    (exists text, run_shexc BAlg c thr0 g = inl text) /\
+    shacl_output ns (r_tau c) shapes = inr (OGraph GTypeError).
+Proof.
+  exists (with_or false true base_rcfg), g_choice. do 2 eexists.
+  split; [reflexivity|]. split; [reflexivity|].
+  split; [vm_compute; reflexivity|].
+  split; [do 2 eexists; split; [left; reflexivity|]; split; [right; left; reflexivity | reflexivity]|].
+  split; [eexists; vm_compute; reflexivity | vm_compute; reflexivity].
+Qed.
+Print Assumptions C04_shacl_choice_refuted.
+
 (** ** profile_graph: the text of the profile never fails to come out
     (Model/ProfileJson.v, Model/RunProfile.v; proofs in Proofs/ProfileJsonProofs.v).
 
